@@ -171,10 +171,51 @@ class Facts:
             out.append(p)
         if allow_many:
             return sorted(out)
+        if len(out) == 1:
+            self._record_anchor(name, file, container, out[0])
+        if not out:
+            r = self._renamed(name, file, container)
+            if r is not None:
+                return r
         if len(out) != 1:
             raise KeyError("function %s (file=%s, container=%s): %d matches %s"
                            % (name, file, container, len(out), out[:4]))
         return out[0]
+
+    # ---- private anchors that were renamed ------------------------------------------------------------------------
+    # anchors.json (committed; written by tools/mkanchors.py from a run on the confirmed tree) records, for every
+    # anchor resolved by name, its file, container, visibility and signature.  When a *private* anchor's name is gone
+    # the function of the same file / container / signature that is not itself a recorded name takes its place,
+    # provided it is unique; anything else stays a missing anchor (fail closed).
+
+    def sig(self, f):
+        return [[self.ty(i) for i in f.get("inputs", [])], self.ty(f.get("output")), f.get("generics", []),
+                f.get("container") or ""]
+
+    def _record_anchor(self, name, file, container, path):
+        if os.environ.get("MSVERIF_RECORD_ANCHORS"):
+            f = self.fns[path]
+            key = json.dumps([name, file, container])
+            RECORDED[key] = {"vis": f.get("vis"), "sig": self.sig(f), "file": f["span"].split(":")[0]}
+
+    def _renamed(self, name, file, container):
+        tab = anchor_table()
+        ent = tab.get(json.dumps([name, file, container]))
+        if ent is None or ent["vis"] == "pub":
+            return None
+        known = set(json.loads(k)[0] for k in tab)
+        cands = []
+        for p, f in self.fns.items():
+            if f.get("kind") == "Closure" or f["span"].split(":")[0] != ent["file"] or f.get("name") in known:
+                continue
+            if self.sig(f) == ent["sig"]:
+                cands.append(p)
+        if len(cands) == 1:
+            self.renamed_anchors[name] = cands[0]
+            return cands[0]
+        return None
+
+    renamed_anchors = {}
 
     def closures_of(self, path):
         return sorted(p for p in self.bodies if p.startswith(path + "::{closure"))
@@ -194,6 +235,42 @@ class Facts:
 
 
 _loaded = {}
+RECORDED = {}
+_ANCHORS = [None]
+
+
+def anchor_table():
+    if _ANCHORS[0] is None:
+        try:
+            with open(os.path.join(VERIF, "anchors.json")) as fh:
+                _ANCHORS[0] = json.load(fh)
+        except (OSError, ValueError):
+            _ANCHORS[0] = {}
+    return _ANCHORS[0]
+
+
+def save_recorded():
+    if not RECORDED:
+        return
+    path = os.path.join(VERIF, "anchors.json")
+    lock = open(os.path.join(CACHE, "anchors.lock"), "w")
+    fcntl.flock(lock, fcntl.LOCK_EX)
+    try:
+        try:
+            with open(path) as fh:
+                cur = json.load(fh)
+        except (OSError, ValueError):
+            cur = {}
+        cur.update(RECORDED)
+        with open(path, "w") as fh:
+            json.dump(cur, fh, indent=0, sort_keys=True)
+    finally:
+        fcntl.flock(lock, fcntl.LOCK_UN)
+        lock.close()
+
+
+import atexit
+atexit.register(save_recorded)
 
 
 def load(config="default", repo=REPO):
